@@ -2,7 +2,6 @@ package main
 
 import (
 	"fmt"
-	"go/token"
 	"go/types"
 	"strings"
 
@@ -152,7 +151,6 @@ func checkC06(p *Prog, res *Result, tier string) {
 // PrevRevision for deletes) from the consumed slot.
 func checkEventFields(p *Prog, r *Roles, res *Result) {
 	seq := r.Sequencer
-	ev, _ := consumedEvent(seq)
 	evType := p.namedType("github.com/kubewharf/kubebrain-client/api/v2rpc", "Event")
 	var evRev *types.Var
 	st := evType.Underlying().(*types.Struct)
@@ -163,32 +161,26 @@ func checkEventFields(p *Prog, r *Roles, res *Result) {
 	}
 	slotRev := p.structField("pkg/backend/common", "WatchEvent", "Revision")
 	construct := funcName(seq) + ": event revision is the slot's revision"
-	// the event may be built by a helper of the sequencer: look in the sequencer and its direct local callees
-	scope := append([]*ssa.Function{seq}, localHelpers(seq, seq.Pkg)...)
-	inScope := func(f *ssa.Function) bool {
-		for _, g := range scope {
-			if g == f {
-				return true
-			}
-		}
-		return false
-	}
+	// the event may be built by a helper of the sequencer: every store to Event.Revision in the goroutine's region,
+	// judged in the frame of each call chain that reaches it
+	se, _ := sequencerEvent(p, r)
 	n := 0
-	for _, s := range p.fields().stores[evRev] {
-		if !inScope(s.Parent()) {
-			continue
-		}
-		n++
-		good := false
-		if u, ok := resolve(s.Val).(*ssa.UnOp); ok && u.Op == token.MUL {
-			if fa, ok := u.X.(*ssa.FieldAddr); ok && fieldOf(fa) == slotRev && sameVal(fa.X, ev) {
-				good = true
+	if se != nil {
+		for _, ch := range se.rg.chainsIn(p, func(ins ssa.Instruction) bool {
+			st, ok := ins.(*ssa.Store)
+			if !ok {
+				return false
 			}
-		}
-		if good {
-			res.ok("C06-R1", construct, p.pos(s.Pos()), "Event.Revision = slot.Revision")
-		} else {
-			res.bad("C06-R1", construct, p.pos(s.Pos()), "the event is stamped with a revision other than the one of the stored version: replaying events no longer matches the store")
+			fa, ok := st.Addr.(*ssa.FieldAddr)
+			return ok && fieldOf(fa) == evRev
+		}) {
+			s := ch.target.(*ssa.Store)
+			n++
+			if se.fieldOfEv(s.Val, slotRev, frameOfChain(ch)) {
+				res.ok("C06-R1", construct, p.pos(s.Pos()), "Event.Revision = slot.Revision")
+			} else {
+				res.bad("C06-R1", construct, p.pos(s.Pos()), "the event is stamped with a revision other than the one of the stored version: replaying events no longer matches the store")
+			}
 		}
 	}
 	if n == 0 {
